@@ -9,7 +9,37 @@ use crate::Span;
 use crate::local::local_span_stack::LOCAL_SPAN_STACK;
 
 thread_local! {
-    static LOCAL_ID_GENERATOR: Cell<(u32, u32)> = Cell::new((rand::random(), 0))
+    static LOCAL_ID_GENERATOR: Cell<(u32, u32)> = Cell::new((random_u64() as u32, 0));
+
+    // The state of `random_u64`. Plain data without a destructor: unlike the thread-local
+    // generator of `rand` it stays accessible while the thread's local storage is torn down.
+    static RANDOM_STATE: Cell<u64> = Cell::new(random_seed());
+}
+
+fn random_seed() -> u64 {
+    use rand::TryRngCore;
+
+    rand::rngs::OsRng.try_next_u64().unwrap_or_else(|_| {
+        let now = std::time::SystemTime::now()
+            .duration_since(std::time::UNIX_EPOCH)
+            .map(|elapsed| elapsed.as_nanos() as u64)
+            .unwrap_or_default();
+        now ^ (&now as *const u64 as u64)
+    })
+}
+
+/// A random number (splitmix64, seeded per thread from the operating system).
+///
+/// This does not go through `rand::random()`, which panics when it is called from a
+/// thread-local destructor after `rand`'s own thread-local generator has been destroyed.
+fn random_u64() -> u64 {
+    RANDOM_STATE.with(|state| {
+        let mut z = state.get().wrapping_add(0x9e37_79b9_7f4a_7c15);
+        state.set(z);
+        z = (z ^ (z >> 30)).wrapping_mul(0xbf58_476d_1ce4_e5b9);
+        z = (z ^ (z >> 27)).wrapping_mul(0x94d0_49bb_1331_11eb);
+        z ^ (z >> 31)
+    })
 }
 
 /// An identifier for a trace, which groups a set of related spans together.
@@ -27,7 +57,7 @@ impl TraceId {
     /// let trace_id = TraceId::random();
     /// ```
     pub fn random() -> Self {
-        TraceId(rand::random())
+        TraceId(((random_u64() as u128) << 64) | random_u64() as u128)
     }
 }
 
@@ -75,7 +105,7 @@ impl SpanId {
     /// let span_id = SpanId::random();
     /// ```
     pub fn random() -> Self {
-        SpanId(rand::random())
+        SpanId(random_u64())
     }
 
     #[inline]
@@ -92,7 +122,7 @@ impl SpanId {
 
                 SpanId(((prefix as u64) << 32) | (suffix as u64))
             })
-            .unwrap_or_else(|_| SpanId(rand::random()))
+            .unwrap_or_else(|_| SpanId(random_u64()))
     }
 }
 
